@@ -27,3 +27,125 @@ func VerifC18Step() {
 	vAssert(c.NextID() == 1, "reset restarts at 1")
 	vCover("c18-step-end")
 }
+
+// ---- packet store as a map, per direction ----
+
+type refStore struct {
+	ids  []packet.ID
+	pkts []packet.Generic
+}
+
+func (r *refStore) find(id packet.ID) int {
+	for i := range r.ids {
+		if r.ids[i] == id {
+			return i
+		}
+	}
+	return -1
+}
+
+func (r *refStore) save(id packet.ID, p packet.Generic) {
+	if i := r.find(id); i >= 0 {
+		r.pkts[i] = p
+		return
+	}
+	r.ids = append(r.ids, id)
+	r.pkts = append(r.pkts, p)
+}
+
+func (r *refStore) del(id packet.ID) {
+	if i := r.find(id); i >= 0 {
+		r.ids = append(r.ids[:i:i], r.ids[i+1:]...)
+		r.pkts = append(r.pkts[:i:i], r.pkts[i+1:]...)
+	}
+}
+
+func c18Packet() (packet.Generic, packet.ID, bool) {
+	id := packet.ID(vU16("id"))
+	switch vChoice("ptype", 6) {
+	case 0:
+		p := packet.NewPublish()
+		p.ID = id
+		return p, id, true
+	case 1:
+		return &packet.Pubrel{ID: id}, id, true
+	case 2:
+		return &packet.Subscribe{ID: id}, id, true
+	case 3:
+		return &packet.Puback{ID: id}, id, true
+	case 4:
+		return packet.NewPingreq(), 0, false // no id: ignored
+	}
+	return packet.NewConnect(), 0, false // no id: ignored
+}
+
+// VerifC18Store: histories of save / delete / reset on both directions of a MemorySession.
+func VerifC18Store() {
+	H := vParam("H", 3)
+	s := NewMemorySession()
+	var ref [2]refStore
+	for i := 0; i < H; i++ {
+		dir := Direction(vChoice("dir", 2))
+		switch vChoice("op", 3) {
+		case 0:
+			p, id, has := c18Packet()
+			vAssert(s.SavePacket(dir, p) == nil, "SavePacket")
+			if has {
+				ref[dir].save(id, p)
+			}
+		case 1:
+			id := packet.ID(vU16("delid"))
+			vAssert(s.DeletePacket(dir, id) == nil, "DeletePacket (also of an absent id)")
+			ref[dir].del(id)
+		case 2:
+			vAssert(s.Reset() == nil, "Reset")
+			ref[0], ref[1] = refStore{}, refStore{}
+			vAssert(s.NextID() == 1, "a reset restarts the ids at 1")
+		}
+	}
+	for d := 0; d < 2; d++ {
+		dir := Direction(d)
+		q := packet.ID(vU16("query"))
+		got, err := s.LookupPacket(dir, q)
+		vAssert(err == nil, "LookupPacket")
+		if i := ref[d].find(q); i >= 0 {
+			vAssert(got == ref[d].pkts[i], "lookup returns the last packet saved under the id in that direction")
+		} else {
+			vAssert(got == nil, "lookup of an id not stored in that direction returns nothing")
+		}
+		all, err := s.AllPackets(dir)
+		vAssert(err == nil && len(all) == len(ref[d].ids), "listing has one entry per stored id of that direction")
+		for k := range all {
+			if k < len(ref[d].pkts) {
+				vAssert(all[k] == ref[d].pkts[k], "listing returns the stored packets (in first-save order)")
+			}
+		}
+	}
+	vCover("c18-store-end")
+}
+
+// VerifC18Concurrent: two goroutines allocating ids and using the store concurrently.
+func VerifC18Concurrent() {
+	s := NewMemorySession()
+	s.Counter = NewIDCounterWithNext(packet.ID(vU16("next")))
+	done := make(chan packet.ID, 2)
+	for g := 0; g < 2; g++ {
+		go func(g int) {
+			id := s.NextID()
+			p := &packet.Pubrel{ID: id}
+			s.SavePacket(Outgoing, p)
+			got, _ := s.LookupPacket(Outgoing, id)
+			vAssert(got == packet.Generic(p), "a packet saved under a fresh id is found under it (store operations are atomic)")
+			if g == 0 {
+				s.DeletePacket(Outgoing, id)
+			}
+			done <- id
+		}(g)
+	}
+	a, b := <-done, <-done
+	vAssert(a != 0 && b != 0, "ids are never zero, also when requested concurrently")
+	vAssert(a != b, "concurrent requests get distinct ids")
+	all, _ := s.AllPackets(Outgoing)
+	vAssert(len(all) == 1, "exactly the undeleted packet remains")
+	vCover("c18-concurrent-end")
+}
